@@ -1,10 +1,11 @@
 (* Extraction of the page model for the API-trace correspondence (ocaml/mode_page.ml). *)
 From Coq Require Import Extraction ExtrOcamlBasic NArith List.
-From MiV Require Import Model.Arith Model.Page.
+From MiV Require Import Model.Arith Model.Page Model.Direct.
 Extraction Language OCaml.
 Cd "extracted".
 Separate Extraction
   Page.page_malloc Page.page_free_local Page.page_remote_free Page.page_thread_free_collect
   Page.page_free_collect Page.page_extend Page.page_init Page.page_visit_blocks Page.page_live
-  Page.page_inv_b Page.page_step Page.page_run.
+  Page.page_inv_b Page.page_step Page.page_run
+  Direct.direct_ok_b Direct.first_update Direct.small_page.
 Cd "..".
